@@ -11,6 +11,15 @@ SRCS = ["src/control/PID.cpp", "src/signal/FirstOrderButterworth.cpp", "src/poin
         "src/regression/leastsquares/NLSE.cpp", "src/regression/leastsquares/LeastSquares.cpp"]
 
 
+PIPE_SRCS = ["src/transform/estimation/FindRigidTransformationBySVD.cpp", "src/transform/estimation/FindRigidTransformationByLeastSquares.cpp",
+             "src/transform/estimation/FindRigidTransformationByICP.cpp", "src/transform/estimation/RansacRigidTransformationModel.cpp",
+             "src/regression/leastsquares/LeastSquares.cpp", "src/pointset/algorithms/PreconditionedPointSet.cpp",
+             "src/pointset/algorithms/PointSetPreconditioner.cpp", "src/pointset/algorithms/Correspondence.cpp",
+             "src/pointset/algorithms/NormalAndCurvatureEstimation.cpp", "src/pointset/KdTree.cpp",
+             "src/regression/ransac/Ransac.cpp", "src/regression/ransac/RansacIterations.cpp", "src/regression/ransac/RansacModel.cpp",
+             "src/regression/ransac/RansacRandomCorrespondences.cpp"]
+
+
 def run(tier, seed):
     os.makedirs(W, exist_ok=True)
     exe = vlib.build("drive_extras", ["drive_extras.cpp"], SRCS)
@@ -21,7 +30,22 @@ def run(tier, seed):
     for f in fails:
         print("EXTRA-REJECTION module=Extras replay=%s after %d events; next %s" % (f["replay"], f["matched"], f["next_event"][:300]))
     os.remove(tr)
-    return 3 if nfail else 0
+    # registration pipelines above the estimators of C04 / C05: RANSAC with wrong correspondences mixed in, ICP from a displaced guess
+    pexe = vlib.build("drive_pipeline", ["drive_pipeline.cpp"], PIPE_SRCS)
+    tr2 = os.path.join(W, "pipeline.ndjson")
+    pr = vlib.run([pexe, "random", str(seed), str(400 if tier == "quick" else 6000), tr2], timeout=1800)
+    print("[X01] pipeline:", pr.stdout.strip())
+    w = pr.stdout.split()
+    tried, failed = int(w[2]), int(w[4])
+    nexec2, nev2, fails2, nfail2 = vlib.validate_executions("Trace_RigidFit.tla", "Trace_RigidFit.cfg", tr2, W, "X01", label="pipeline")
+    print("[X01] pipeline: %d executions, %d events, %d rejected" % (nexec2, nev2, nfail2))
+    for f in fails2:
+        print("EXTRA-REJECTION module=RigidFit (pipeline) replay=%s after %d events; next %s" % (f["replay"], f["matched"], f["next_event"][:300]))
+    if failed * 5 > tried:
+        print("EXTRA-REJECTION module=RigidFit (pipeline): RANSAC found no consensus in %d of %d instances with at most 30%% wrong correspondences" % (failed, tried))
+        nfail2 += 1
+    os.remove(tr2)
+    return 3 if nfail or nfail2 else 0
 
 
 def replay(path, seed):
